@@ -118,6 +118,28 @@ def w_side(seed: int) -> Part:
     return part
 
 
+def w_apdu(code_lo: int, code_hi: int, seed: int, thorough: bool) -> Part:
+    """Every application-layer service behind the link layer: the APDU space of C04 (all 1024 APCI codes x lengths x fills x
+    count octets x flag-bit walks) inside consistent L_Data.ind frames to a group and to an individual address."""
+    from ..apcispace import struct_space
+
+    part = Part()
+    for code in range(code_lo, code_hi):
+        for apdu in struct_space(code, seed, thorough):
+            if apdu[0] & 0xFC or len(apdu) > 255:
+                continue
+            for c2, dst in ((0xE0, 0x0901), (0x60, 0x1105)):
+                raw = ldata(0x29, b"\x00", 0xBC, c2, dst, None, apdu)
+                part.evaluations += 1
+                outcome, viols = check_one(raw)
+                part.outcomes[outcome] += 1
+                if outcome in ("frame", "escape"):
+                    part.nontrivial += 1
+                for sig, detail in viols:
+                    part.viol(sig, detail, raw, rank=(len(raw), raw))
+    return part
+
+
 def w_short(thorough: bool, i: int) -> Part:
     part = Part()
     run_gen(gen_short(thorough, i), part)
@@ -129,12 +151,14 @@ def run(ctx: Ctx) -> None:
         "CEMIFrame.from_knx on: all byte strings of length 0..2 and length 3 (quick: 8 third-octet values, thorough: all); for each L_Data code {11,29,2E}: "
         "Ctrl2 (AT x hop{0,7} x all 16 EFF) x dst{0,own,other} x ALL 256 TPCI octets x NPDU length field {0,1,true,true+-1,15,16,254,255} x 7 APDU tails; every Ctrl1 octet; "
         "additional-info lengths consistent/inconsistent/overlong; every truncation; every other message code (all enum members + 3 unassigned) x every length 0..11 x object type / "
-        "number-of-elements / fill variants. Oracle: frame, CouldNotParseCEMI or UnsupportedCEMIMessage only. non-trivial = parsed to a frame"
+        "number-of-elements / fill variants; the application-layer space of C04 (all 1024 APCI codes x APDU lengths 2..40,48,64,128,254 x fills x count octets x single-bit walks over the first three body octets) "
+        "inside consistent L_Data.ind frames to a group and an individual address. Oracle: frame, CouldNotParseCEMI or UnsupportedCEMIMessage only. non-trivial = parsed to a frame"
     )
     ctx.bounds = {"l_data_codes": 3, "tails": len(TAILS), "message_codes": len(codes())}
     ctx.pmap(w_main, [(c, t) for c in L_DATA for t in range(len(TAILS))])
     ctx.pmap(w_side, [(ctx.seed,)])
     ctx.pmap(w_short, [(ctx.thorough, i) for i in range(256)])
+    ctx.pmap(w_apdu, [(c, c + 16, ctx.seed, ctx.thorough) for c in range(0, 1024, 16)])
 
 
 def replay(case: Any) -> list[tuple[str, str]]:
